@@ -565,7 +565,55 @@ fn random<T: Elem>(out: &mut Out, data: &[T], rng: &mut Rng, count: usize) {
     }
 }
 
+/// long slices and large / power-of-two / near-usize::MAX sizes with a few scripted histories
+/// (the exhaustive sweep stays at small lengths)
+fn stress<T: Elem>(out: &mut Out, data: &[T], thorough: bool) {
+    let lens: Vec<usize> = block_sizes(data.len()).into_iter().filter(|l| *l >= 15).collect();
+    for &len in &lens {
+        let whole = &data[..len];
+        let mut sizes: Vec<usize> = vec![1, 2, 3, 4, 7, 8, 16, 32, 64, 128, 256, len.max(1), len + 1];
+        sizes.extend([1usize << 32, 1 << 63, usize::MAX - len - 1, usize::MAX - len, usize::MAX - len + 1, usize::MAX - 1, usize::MAX]);
+        sizes.sort_unstable();
+        sizes.dedup();
+        for &size in &sizes {
+            if size == 0 {
+                continue;
+            }
+            let steps = (len / size.min(len.max(1))).min(12) + 2;
+            let f: Vec<End> = vec![F; steps];
+            let b: Vec<End> = vec![B; steps];
+            let fb: Vec<End> = (0..steps).map(|i| if i % 2 == 0 { F } else { B }).collect();
+            let bf: Vec<End> = (0..steps).map(|i| if i % 2 == 0 { B } else { F }).collect();
+            let scripts: Vec<&Vec<End>> = if thorough || size >= 128 || len % 32 <= 1 { vec![&f, &b, &fb, &bf] } else { vec![&b, &fb] };
+            for sc in scripts {
+                let p = P { elem: T::NAME, len, size, script: Some(sc) };
+                k_chunks(out, &p, whole, false);
+                k_exact(out, &p, whole, false);
+                if size <= len + 1 {
+                    k_windows(out, &p, whole, false);
+                }
+                if size <= MAX_N {
+                    k_array_n(out, &p, whole, false);
+                }
+            }
+        }
+        let f: Vec<End> = vec![F; 4];
+        let bf: Vec<End> = vec![B, F, B, B];
+        for sc in [&f, &bf] {
+            let p1 = P { elem: T::NAME, len, size: 1, script: Some(sc) };
+            k_iter(out, &p1, whole, false);
+            k_copied(out, &p1, whole, false);
+        }
+    }
+}
+
 pub fn run(cfg: &Cfg, out: &mut Out) {
+    {
+        let long_u: Vec<u32> = (0..300).collect();
+        let long_z: Vec<()> = vec![(); 300];
+        stress(out, &long_u, cfg.thorough);
+        stress(out, &long_z[..130], cfg.thorough);
+    }
     let data_u: Vec<u32> = (0..64).collect();
     let data_z: Vec<()> = vec![(); 64];
     let max_len = if cfg.thorough { 12 } else { 9 };
